@@ -228,7 +228,7 @@ def write_evidence(path, pid, tier, seed, H, results, nval, src_sha, t_start, t_
                   stubs_hit=stubs, sources={os.path.relpath(k, '/'): v[:16] for k, v in src_sha.items()},
                   bounds=getattr(H, 'BOUNDS', {}).get(tier, getattr(H, 'BOUNDS', '')) if isinstance(getattr(H, 'BOUNDS', ''), dict) else getattr(H, 'BOUNDS', ''),
                   outside=getattr(H, 'OUTSIDE', []),
-                  obligation_list=[dict(name=r['name'], status=r['status'], paths=r['paths'], queries=r['queries'], wall_s=round(r['wall'], 2), note=(r['note'] or '')[:200]) for r in rs][:3000],
+                  obligation_list=[dict(name=r['name'], status=r['status'], paths=r['paths'], queries=r['queries'], wall_s=round(r['wall'], 2), note=(r['note'] or '')[:200] + ((' ... ' + (r['note'] or '')[-500:]) if len(r['note'] or '') > 700 else '')) for r in rs][:3000],
                   known_findings_observed=[dict(key=kf['key'], text=kf['text'], obligation=r['name']) for kf, r in known_hits],
                   violations_reported=[dict(obligation=r['name'], key=r.get('key'), replay=p) for r, p in reported],
                   unreproduced_counterexamples=[r['name'] for r in unrepro],
